@@ -543,7 +543,8 @@ package loadbalancer
 //@ func (*responseWriter).WriteHeader
 //@   props C01 C12
 //@   requires rw.ResponseWriter != nil
-//@   ensures same_status_forwarded: rw.statusCode == statusCode && (!old(rw.ResponseWriter.committed) ==> rw.ResponseWriter.committed && rw.ResponseWriter.status == statusCode)
+//@   ensures same_status_forwarded: rw.statusCode == statusCode && (!old(rw.ResponseWriter.committed) && !informational(statusCode) ==> rw.ResponseWriter.committed && rw.ResponseWriter.status == statusCode)
+//@             && (informational(statusCode) ==> rw.ResponseWriter.committed == old(rw.ResponseWriter.committed))
 //@   ensures body_untouched: rw.ResponseWriter.bodyLen == old(rw.ResponseWriter.bodyLen)
 //@   modifies rw.statusCode, http.ResponseWriter.committed, http.ResponseWriter.status, http.ResponseWriter.ceAtCommit, http.ResponseWriter.clAtCommit
 //@ func (*responseWriter).Flush
